@@ -35,3 +35,5 @@ EQUIVALENT = [
     ('getitem comprehension', T, "        to_concat = []\n        # Obtain the requested parts.\n        for part_idx, subitem in _get_subitems(self.part_bounds, item):\n            to_concat.append(self._get_part(part_idx, subitem))",
      "        to_concat = [self._get_part(part_idx, subitem) for part_idx, subitem in _get_subitems(self.part_bounds, item)]"),
 ]
+BREAKING.append(('double negation cancelled by popping the shared list', 'phylib/io/traces.py', "    def __neg__(self):\n        return self._append_op('neg')", "    def __neg__(self):\n        if self._ops and self._ops[-1][0] == 'neg':\n            clone = copy.copy(self)\n            clone._ops.pop()\n            return clone\n        return self._append_op('neg')", ['C02.T2', 'C02.M1']))
+EQUIVALENT.append(('double negation cancelled on a fresh list', 'phylib/io/traces.py', "    def __neg__(self):\n        return self._append_op('neg')", "    def __neg__(self):\n        if self._ops and self._ops[-1][0] == 'neg':\n            clone = copy.copy(self)\n            clone._ops = self._ops[:-1]\n            return clone\n        return self._append_op('neg')"))
